@@ -336,14 +336,19 @@ func stringArm(c *Ctx) (bool, string, string) {
 			return false, "the scanning loop body does not test the byte", pos
 		}
 		bc, ok := bif.Cond.(*ssa.BinOp)
-		if !ok || bc.Op != token.EQL || !tmpAt(bc.X, J) || !isZero(bc.Y) {
+		if !ok || (bc.Op != token.EQL && bc.Op != token.NEQ) || !tmpAt(bc.X, J) || !isZero(bc.Y) {
 			return false, "the scanning loop does not stop at tmp[j] == 0x00", pos
 		}
-		// the false edge continues the loop (reaches the increment), the true edge leaves it
-		if inc.Block() != B.Succs[1] && !(len(B.Succs[1].Succs) == 1 && B.Succs[1].Succs[0] == H) {
+		// `== 0` leaves on the true edge, `!= 0` (the test folded into the loop condition) on the false edge
+		zeroSucc, otherSucc := B.Succs[0], B.Succs[1]
+		if bc.Op == token.NEQ {
+			zeroSucc, otherSucc = otherSucc, zeroSucc
+		}
+		// the non-zero edge continues the loop (reaches the increment), the zero edge leaves it
+		if inc.Block() != otherSucc && !(len(otherSucc.Succs) == 1 && otherSucc.Succs[0] == H) {
 			return false, "the byte test does not continue the scan on a non-zero byte", pos
 		}
-		if B.Succs[0] == H || B.Succs[0] == inc.Block() {
+		if zeroSucc == H || zeroSucc == inc.Block() {
 			return false, "a zero byte does not end the scan", pos
 		}
 		return true, "SetString(string(tmp[:j])), j from the scanning loop bounded by the field size that stops at the first 0x00", pos
